@@ -75,6 +75,9 @@ func runC06(ctx *core.Ctx, idx int) *core.Result {
 	matching := "@@\nvar x expression\n@@\n-bump(x)\n+bump(x + 1)\n"
 	var patches []string
 	guardedFollowUp := false
+	// kind C: what the first file of the run has when it is the one file that satisfies the guard (every change of the
+	// run is guarded; a file that a change applied to is followed by files whose guards fail)
+	guardOKPkg, guardOKImp := "", ""
 	gk, dk := 0, 0
 	_ = gk
 	guardFilePkg, guardFileImp := "", "" // kind C: the package / the import the files have instead of the guarded one
@@ -105,12 +108,15 @@ func runC06(ctx *core.Ctx, idx int) *core.Result {
 			// two import lines: the file has the first one and nothing of the second path
 			patches = append(patches, "# guarded\n@@\nvar x expression\n@@\n import \"example.com/zz\"\n import \"example.com/zz/second\"\n\n-bump(x)\n+bump(x + 1)\n")
 			guardFileImp = "\"example.com/zz\""
+			guardOKImp = "(\n\t\"example.com/zz\"\n\t\"example.com/zz/second\"\n)"
 		case 0:
 			patches = append(patches, "# guarded\n@@\nvar x expression\n@@\n package "+pp[0]+"\n\n-bump(x)\n+bump(x + 1)\n")
 			guardFilePkg = pp[1]
+			guardOKPkg = pp[0]
 		case 1:
 			patches = append(patches, "# guarded\n@@\nvar x expression\n@@\n import "+ip[0]+"\n\n-bump(x)\n+bump(x + 1)\n")
 			guardFileImp = ip[1]
+			guardOKImp = ip[0]
 		default:
 			patches = append(patches, "# guarded\n@@\nvar x expression\n@@\n-package "+pp[0]+"\n+package renamed\n\n-bump(x)\n+bump(x + 1)\n")
 			guardFilePkg = pp[1]
@@ -163,6 +169,7 @@ func runC06(ctx *core.Ctx, idx int) *core.Result {
 		}
 	}
 	nf := 3 + r.Intn(6)
+	firstHolds := r.Intn(2) == 0
 	type fileInfo struct {
 		name, src, layout string
 		matched           bool
@@ -190,6 +197,9 @@ func runC06(ctx *core.Ctx, idx int) *core.Result {
 			}
 		case "C-guard-fails":
 			plants = append(plants, gen.Plant{Kind: "expr", Text: "bump(" + g.Atom() + ")"})
+			if f == 0 && firstHolds && (guardOKPkg != "" || guardOKImp != "") {
+				matched = true
+			}
 		case "F-only-inadmissible-sites":
 			slots := []string{"func tgtName() {}", "func (r *R) tgtName() int { return 0 }", "type S1 struct {\n\ttgtName int\n}", "type I1 interface {\n\ttgtName() error\n}",
 				"func f1() {\ntgtName:\n\tfor {\n\t\tbreak tgtName\n\t}\n}", "func f3(tgtName int) {}", "const tgtName = 3", "type tgtName struct{}", "func tgtOther() {}", "var tgtOther int"}
@@ -219,11 +229,15 @@ func runC06(ctx *core.Ctx, idx int) *core.Result {
 		layout := "corpus"
 		if src == "" {
 			src = g.File(gen.FileOpts{Plants: plants})
-			if guardFilePkg != "" {
-				src = strings.Replace(src, "package p\n", "package "+guardFilePkg+"\n", 1)
+			gp, gi := guardFilePkg, guardFileImp
+			if matched && kind == "C-guard-fails" {
+				gp, gi = guardOKPkg, guardOKImp
 			}
-			if guardFileImp != "" {
-				src = strings.Replace(src, "package p\n", "package p\n\nimport "+guardFileImp+"\n", 1)
+			if gp != "" {
+				src = strings.Replace(src, "package p\n", "package "+gp+"\n", 1)
+			}
+			if gi != "" {
+				src = strings.Replace(src, "package "+map[bool]string{true: gp, false: "p"}[gp != ""]+"\n", "package "+map[bool]string{true: gp, false: "p"}[gp != ""]+"\n\nimport "+gi+"\n", 1)
 			}
 			lk := r.Intn(12)
 			if lk == 10 && matched {
@@ -242,6 +256,11 @@ func runC06(ctx *core.Ctx, idx int) *core.Result {
 			fi.src, fi.layout, fi.matched, fi.failing = "package p\n\nvar _ = tgtPair(call(), 1)\n\nfunc h"+fmt.Sprint(f)+"() { bump(2) }\n", "rewrite-error", false, true
 		}
 		files = append(files, fi)
+	}
+	// a run in which a change applies to some file has output of its own
+	mixed := kind == "B-mixed"
+	for _, f := range files {
+		mixed = mixed || f.matched
 	}
 	dir, _ := os.MkdirTemp(ctx.Tmp, "c06")
 	defer os.RemoveAll(dir)
@@ -356,7 +375,7 @@ func runC06(ctx *core.Ctx, idx int) *core.Result {
 		if i > 0 && i < len(files)-1 {
 			pos = "middle"
 		}
-		if f.layout != "gofmt-like" || kind == "B-mixed" {
+		if f.layout != "gofmt-like" || mixed {
 			res.Sig(f.layout, flagWord, kind, pos)
 		}
 		fail := func(class, detail string) {
@@ -388,7 +407,7 @@ func runC06(ctx *core.Ctx, idx int) *core.Result {
 		}
 	}
 	skipImp := strings.Contains(flagWord, "--skip-import-processing")
-	if mode == "print" && !verbose && (skipImp || withFailures) && kind == "B-mixed" {
+	if mode == "print" && !verbose && (skipImp || withFailures) && mixed {
 		// matched files are printed without import processing, which the library cannot do:
 		// only the unmatched files' bytes are checked
 		for _, f := range files {
@@ -399,7 +418,7 @@ func runC06(ctx *core.Ctx, idx int) *core.Result {
 	} else if mode == "print" && !verbose && stdout != printExpect.String() {
 		res.Violate("C06/print-only-not-original-bytes", fmt.Sprintf("[%s, %s] --print-only stdout differs from the concatenation of original bytes (unmatched) and patched bytes (matched)", kind, flagWord), rep)
 	}
-	if mode == "diff" && kind != "B-mixed" && !verbose && len(stdout) > 0 {
+	if mode == "diff" && !mixed && !verbose && len(stdout) > 0 {
 		res.Violate("C06/diff-output-without-match", core.Trunc(stdout, 300), rep)
 	}
 	if withFailures {
@@ -410,7 +429,7 @@ func runC06(ctx *core.Ctx, idx int) *core.Result {
 			}
 		}
 	}
-	if kind != "B-mixed" && strings.TrimSpace(stderr) != "" {
+	if !mixed && strings.TrimSpace(stderr) != "" {
 		res.Violate("C06/stderr-output-without-match", core.Trunc(stderr, 300), rep)
 	}
 	if len(after) != len(before) {
